@@ -177,8 +177,9 @@ NOT_YET = {}
 EXTRA_TEXT = {
     'C01': ' Text level (C01Norm, partial): C01_normal_form_fixed_point / C01_normalForm_idem - for every text, parser and class of cells whose exported texts round-trip, replacing every '
            'data cell by the exported text of its token keeps the spine paths and is idempotent; C01Text: C01_export_of_normal_form / C01_dumps_of_normal_form - the export of the normal form '
-           'is the export of the text (both statements are also evaluated on the real library with the Lean normal form). Not proved: that deleting comment lines, all-null lines and '
-           'unsupported columns keeps the paths.',
+           'is the export of the text; C01Plain: C01_plain_export / C01_fixed_point_plain - for plain texts (no global comments, supported spine types, no all-null line) the export is the '
+           'rendering of the normal form and dumps(loads(dumps(loads(text)))) = dumps(loads(text)) (all statements are also evaluated on the real library with the Lean normal form). '
+           'Not proved: that deleting comment lines, all-null lines and unsupported columns keeps the paths.',
     'C04': ' Document level (C04Doc): C04_cell_view / C04_line_view - in the text specification of the export every line of a plain encoding is, cell by cell and with the same cells present, '
            'the view (separators removed, null token when nothing remains) of the same line of its extended counterpart.',
     'C18': ' Inside documents (C18Doc): C18_cell_in_document - with the importer\'s cell parser instantiated by the spine-importer dispatch every data cell of a non-kern spine carries the token of '
